@@ -167,6 +167,23 @@ def run(chk):
     r4.ob("matcher self-check on fixtures/c12_lookup.cpp: sound find/lower_bound idioms pass, unsound ones are reported (%d lookup sites in the library today)" % n4, True, "", "", "")
     r4.require(1, "obligation")
 
+    # ------------------------------------------------------------------ R12.5 = C17 R17.10: script-level insert_at / push_back store ordinary values
+    if not getattr(chk, "nested", False):
+        from .. import core
+        from . import c17
+        r5 = chk.rule("R12.5", "the script-level halves of insert_at / push_back store a copy of their argument or an un-marked temporary (C17 R17.10 re-decided on the prelude)",
+                      "insert_at has the effect of the std container operation: the inserted element is an ordinary element afterwards (assignable, copied when read into a variable)")
+        sub = core.Check("C17", tier=chk.tier)
+        sub.prog = prog
+        sub.nested = True
+        c17.run(sub)
+        sr = [r for r in sub.rules if r.rid == "R17.10"]
+        r5.anchor(bool(sr), "C17 R17.10")
+        for v in [v for v in sub.violations if v["rule"] == "R17.10"]:
+            r5.ob("R17.10: %s" % v["instance"], False, v["where"], v["function"], v["detail"])
+        r5.ob("C17 R17.10 decided (%d obligations)" % sr[0].obligations, True, "", "", "")
+        r5.require(1, "rule")
+
     r3 = chk.rule("R12.3", "a position computed as begin()+n is used by erase only under 0 <= n < distance(begin,end) and by insert only under 0 <= n <= distance(begin,end)",
                   "erase_at / insert_at accept exactly the valid positions (no off-by-one past the end)")
     position_bounds(prog, chk, r3, boot)
